@@ -43,6 +43,7 @@ type LCase struct {
 	Resolver bool      `json:"resolver,omitempty"` // pass a resolver that knows no variable (else none)
 	Meta     string    `json:"meta,omitempty"`
 	Refs     []LRef    `json:"refs,omitempty"` // planted reference faults (VarExp only)
+	Spell    []int     `json:"spell,omitempty"` // how the data is spelled (nested, dotted keys, mixed: hist_test.go); empty: nested
 	Ops      []LOp     `json:"ops"`
 }
 
@@ -88,6 +89,12 @@ func genLCase(t *rapid.T) LCase {
 	if c.VarExp {
 		plantRefs(t, &c)
 	}
+	if rapid.IntRange(0, 9).Draw(t, "spelled") < 4 {
+		c.Spell = genSpell(t)
+	}
+	// histories: in a third of the cases removals (which move the following elements of a list) and
+	// replacements come first and are frequent
+	editFirst := rapid.IntRange(0, 2).Draw(t, "editfirst") == 0
 
 	var paths [][]string
 	c.Tree.Walk(nil, func(p []string, n *gen.Tree) {
@@ -101,9 +108,51 @@ func genLCase(t *rapid.T) LCase {
 			paths = append(paths, append([]string{}, ref.Path...))
 		}
 	}
+	// elements of lists that are followed by further elements: removing one moves the others
+	var notLast, movedPaths [][]string
+	c.Tree.Walk(nil, func(p []string, n *gen.Tree) {
+		if n.K == "list" && len(p) > 0 {
+			for i := 0; i+1 < len(n.Vals); i++ {
+				notLast = append(notLast, appendPath(p, strconv.Itoa(i)))
+			}
+		}
+	})
 	nops := rapid.IntRange(1, runlog.Pick(6, 10)).Draw(t, "nops")
 	for i := 0; i < nops; i++ {
+		if editFirst && i == 0 && len(notLast) > 0 && rapid.IntRange(0, 3).Draw(t, "shift") > 0 {
+			// a focused history: an element that is not the last one is removed, then what has moved is read
+			target := rapid.SampledFrom(notLast).Draw(t, "shiftat")
+			list, j := target[:len(target)-1], 0
+			j, _ = strconv.Atoi(target[len(target)-1])
+			op := LOp{Op: "remove", Path: target, Idx: -1}
+			if rapid.Bool().Draw(t, "shiftidx") {
+				op.Path, op.Idx = list, j
+			}
+			for _, q := range paths {
+				if len(q) > len(list) && samePath(q[:len(list)], list) {
+					if m, err := strconv.Atoi(q[len(list)]); err == nil && m > j {
+						nq := append([]string{}, q...)
+						nq[len(list)] = strconv.Itoa(m - 1)
+						movedPaths = append(movedPaths, nq)
+					}
+				}
+			}
+			c.Ops = append(c.Ops, op)
+			continue
+		}
+		if len(movedPaths) > 0 && rapid.IntRange(0, 2).Draw(t, "readmoved") > 0 {
+			op := LOp{Op: rapid.SampledFrom([]string{"int", "bool", "child", "uint", "float", "string", "count"}).Draw(t, "movedop"), Idx: -1}
+			op.Path = append([]string{}, rapid.SampledFrom(movedPaths).Draw(t, "movedpath")...)
+			if n, err := strconv.Atoi(op.Path[len(op.Path)-1]); err == nil && op.Op != "count" && rapid.Bool().Draw(t, "movedidx") {
+				op.Path, op.Idx = op.Path[:len(op.Path)-1], n
+			}
+			c.Ops = append(c.Ops, op)
+			continue
+		}
 		op := LOp{Op: rapid.SampledFrom(lowOps).Draw(t, "op"), Idx: -1}
+		if editFirst && i < 2 && rapid.IntRange(0, 3).Draw(t, "edit") > 0 {
+			op.Op = rapid.SampledFrom([]string{"remove", "remove", "remove", "set", "setchild"}).Draw(t, "editop")
+		}
 		var p []string
 		if len(paths) > 0 && rapid.IntRange(0, 9).Draw(t, "real") > 0 {
 			p = append([]string{}, rapid.SampledFrom(paths).Draw(t, "path")...)
@@ -233,6 +282,55 @@ func planted(c *LCase, addr []string) string {
 	return ""
 }
 
+// parentOf returns the container holding the node at segs (strict walk) and
+// the position of the node in it (-1: no such node).
+func parentOf(t *gen.Tree, segs []string) (*gen.Tree, int) {
+	if len(segs) == 0 {
+		return nil, -1
+	}
+	p, known := lookup(t, segs[:len(segs)-1])
+	if !known || p == nil {
+		return nil, -1
+	}
+	last := segs[len(segs)-1]
+	switch p.K {
+	case "obj":
+		for i, k := range p.Keys {
+			if k == last {
+				return p, i
+			}
+		}
+	case "list":
+		if i, err := strconv.Atoi(last); err == nil && i >= 0 && i < len(p.Vals) && strconv.Itoa(i) == last {
+			return p, i
+		}
+	}
+	return nil, -1
+}
+
+// modelRemove deletes the node at segs: the following elements of a list move down.
+func modelRemove(t *gen.Tree, segs []string) bool {
+	p, i := parentOf(t, segs)
+	if p == nil || i < 0 {
+		return false
+	}
+	if p.K == "obj" {
+		p.Keys = append(p.Keys[:i:i], p.Keys[i+1:]...)
+	}
+	p.Vals = append(p.Vals[:i:i], p.Vals[i+1:]...)
+	return true
+}
+
+// modelReplace puts v in place of the node at segs.
+func modelReplace(t *gen.Tree, segs []string, v *gen.Tree) bool {
+	p, i := parentOf(t, segs)
+	if p == nil || i < 0 {
+		return false
+	}
+	p.Vals[i] = v
+	return true
+}
+
 // lookup walks the data tree strictly: keys in objects, in-range indices in
 // lists. known=false: the address uses a rule this model does not cover (a
 // numeric segment on a non-list, a name on a list, anything below a
@@ -316,7 +414,8 @@ func runLCase(c LCase, r *runlog.R) error {
 	}
 
 	var cfg *ucfg.Config
-	err := uc.Safe("NewFrom", func() (e error) { cfg, e = ucfg.NewFrom(c.Tree.Go(), nopts...); return })
+	data, sp := respell(c.Tree.Go(), c.Spell)
+	err := uc.Safe("NewFrom", func() (e error) { cfg, e = ucfg.NewFrom(data, nopts...); return })
 	if err != nil {
 		if strings.Contains(err.Error(), "panicked") && !isTyped(err) {
 			return err
@@ -325,8 +424,17 @@ func runLCase(c LCase, r *runlog.R) error {
 		return typed("NewFrom", err)
 	}
 
-	mutated := false
-	errs, deepErr, asserted := 0, false, 0
+	// the model of the configuration: the tree, edited by the removals and replacements whose effect is
+	// certain (strict addresses); lost: an edit the model does not cover has happened
+	model := c.Tree.Clone()
+	mutated, lost := false, false
+	type shift struct {
+		list []string
+		j    int
+	}
+	var shifts []shift // removals that moved the elements from index j on of a list
+	movedKinds := map[string]bool{}
+	errs, deepErr, asserted, assertedLate, assertedMoved := 0, false, 0, 0, 0
 	for i, op := range c.Ops {
 		name := strings.Join(op.Path, ".")
 		addr := append([]string{}, op.Path...)
@@ -355,6 +463,12 @@ func runLCase(c LCase, r *runlog.R) error {
 				var ok bool
 				ok, opErr = cfg.Remove(name, op.Idx, sopts...)
 				mutated = mutated || ok
+				if ok {
+					if p, i := parentOf(model, addr); p != nil && p.K == "list" && i < len(p.Vals)-1 {
+						shifts = append(shifts, shift{append([]string{}, addr[:len(addr)-1]...), i}) // the following elements have moved down
+					}
+					lost = lost || !modelRemove(model, addr)
+				}
 			case "count":
 				// CountField takes a single name: go to the parent first
 				parent := cfg
@@ -367,6 +481,9 @@ func runLCase(c LCase, r *runlog.R) error {
 			case "set":
 				opErr = setPrim(cfg, name, op.Idx, op.Val, sopts)
 				mutated = mutated || opErr == nil
+				if opErr == nil {
+					lost = lost || !modelReplace(model, addr, op.Val.Clone())
+				}
 			case "setchild":
 				child, e := ucfg.NewFrom(op.Val.Go(), sopts...)
 				if e != nil {
@@ -374,6 +491,9 @@ func runLCase(c LCase, r *runlog.R) error {
 				}
 				opErr = cfg.SetChild(name, op.Idx, child, sopts...)
 				mutated = mutated || opErr == nil
+				if opErr == nil {
+					lost = lost || !modelReplace(model, addr, op.Val.Clone())
+				}
 			case "unpack":
 				var m map[string]interface{}
 				opErr = cfg.Unpack(&m, gopts...)
@@ -412,24 +532,25 @@ func runLCase(c LCase, r *runlog.R) error {
 		for _, g := range getterOps {
 			isGetter = isGetter || g == op.Op
 		}
-		if !(isGetter || op.Op == "count") || mutated {
+		if !(isGetter || op.Op == "count") || lost {
 			continue
 		}
 		if op.Op == "count" {
 			addr = op.Path // CountField takes no index
 		}
-		n, known := lookup(c.Tree, addr)
+		n, known := lookup(model, addr)
 		if !known || n == nil {
 			continue
 		}
 		// the setting that was addressed exists: whatever makes reading it
 		// fail (wrong type, failed conversion, unresolvable reference) is a
 		// failure caused by this setting
+		// (after an edit the planted references may mean something else: nothing is demanded to fail then)
 		shape := ""
-		if c.VarExp {
+		if c.VarExp && !mutated {
 			shape = planted(&c, addr)
 		}
-		must := isGetter && mustFail(&c, op.Op, n)
+		must := isGetter && !mutated && mustFail(&c, op.Op, n)
 		if isGetter && shape != "" {
 			// a cycle or a path through a primitive can not be resolved by
 			// anything; a missing variable can not by a resolver that knows none
@@ -442,6 +563,20 @@ func runLCase(c LCase, r *runlog.R) error {
 			continue
 		}
 		asserted++
+		if mutated {
+			assertedLate++
+		}
+		for _, sh := range shifts {
+			if len(addr) > len(sh.list) && samePath(addr[:len(sh.list)], sh.list) {
+				if m, err := strconv.Atoi(addr[len(sh.list)]); err == nil && m >= sh.j {
+					assertedMoved++
+					if e, _ := lookup(model, addr[:len(sh.list)+1]); e != nil {
+						movedKinds[map[bool]string{true: e.K, false: "primitive"}[e.IsCont()]] = true
+					}
+					break
+				}
+			}
+		}
 		if e := checkError(opErr, strings.Join(addr, "."), c.Meta); e != nil {
 			// D58: when the resolution of a dynamic setting fails with an
 			// error that is typed already, CountField handed it out as it was
@@ -478,6 +613,20 @@ func runLCase(c LCase, r *runlog.R) error {
 	r.ClassIf(strings.ContainsAny(c.Meta, "%'\"{}$"), "source name with special characters")
 	r.ClassIf(len(c.Refs) > 0, "with planted reference faults")
 	r.ClassIf(mutated, "config mutated by an op")
+	r.ClassIf(lost, "config mutated in a way the model does not follow (no path asserted afterwards)")
+	r.ClassIf(assertedLate > 0, "path of the failing setting asserted after an edit (Remove, Set*, SetChild)")
+	r.ClassIf(assertedMoved > 0, "path of a failing setting asserted that lies in a list element moved down by a removal")
+	for k := range movedKinds {
+		r.Class("... the moved element is a(n) " + k)
+	}
+	if len(c.Spell) > 0 {
+		r.Class("spelling: data re-spelled")
+		r.ClassIf(sp.dotted > 0, "spelling: dotted keys")
+		r.ClassIf(sp.implied > 0, "spelling: objects/lists implied by dotted keys only")
+		r.ClassIf(sp.listNodes > 0, "spelling: list elements written by numeric segments")
+		r.ClassIf(sp.piecewise > 0, "spelling: a container defined piecewise (nested and dotted mixed)")
+		r.ClassIf(sp.dotted > 0 && asserted > 0, "spelling: dotted keys, path of a failing setting asserted")
+	}
 	return nil
 }
 
